@@ -872,9 +872,12 @@ def _run_child(plan):
             pub_text = json.dumps(cm.ref_paranoia_filter(twin["full"]))
             strings = {k_: v_ for k_, v_ in strings.items() if v_ not in pub_text and json.dumps(v_)[1:-1] not in pub_text}
             channels = [("stdout", out)] + [("file:" + p, d.decode("utf-8", "replace")) for p, d in sorted(new_files.items())]
-            # stderr: always for served runs; for failed runs only when every argument was valid (the failure is
-            # an injected I/O fault / race, so no legitimate message can be echoing the user's own input)
-            if status == 0 or not plan["expected_invalid"]:
+            # stderr: always for served runs; for failed runs only when the failure was produced by an injected
+            # fault (I/O error, interrupt, race that took effect). A refusal at argument parsing (status 2) may
+            # legitimately echo the user's own input back ("invalid value: '...'") - that is not filtered output.
+            injected = any(x["kind"] in ("io", "interrupt", "crash") or (x["kind"] == "race" and x.get("effective"))
+                           for x in inj.fired)
+            if status == 0 or (status != 2 and injected and not plan["expected_invalid"]):
                 channels.append(("stderr", err))
             for chname, text in channels:
                 for kind, what in cm.scan_for_secrets(text, strings, scalars, words_set):
